@@ -111,6 +111,7 @@ var zc43Kinds = []zc43Kind{
 	{Name: "u-ok", Method: "u_ok", X: 5},
 	{Name: "u-err", Method: "u_err", X: 5},
 	{Name: "u-panic", Method: "u_panic", X: 5},
+	{Name: "u-plainerr", Method: "u_plainerr", X: 5},
 	{Name: "prod-2", Method: "prod", Stream: 1, X: 1, In: []string{"t", "t", "t"}},
 	{Name: "prod-initerr", Method: "prod", Stream: 1, X: -1, In: []string{"t"}},
 	{Name: "prod-cancel", Method: "prod", Stream: 1, X: 5, In: []string{"t", "cancel"}},
@@ -140,6 +141,9 @@ func zc43NewServer() *vgirpc.Server {
 	})
 	vgirpc.Unary(s, "u_err", func(ctx context.Context, cc *vgirpc.CallContext, p ZC43Params) (int64, error) {
 		return 0, &vgirpc.RpcError{Type: "ValueError", Message: "scripted unary failure"}
+	})
+	vgirpc.Unary(s, "u_plainerr", func(ctx context.Context, cc *vgirpc.CallContext, p ZC43Params) (int64, error) {
+		return 0, fmt.Errorf("scripted plain Go error (not an RpcError)")
 	})
 	vgirpc.Unary(s, "u_panic", func(ctx context.Context, cc *vgirpc.CallContext, p ZC43Params) (int64, error) {
 		panic("scripted unary panic")
